@@ -14,6 +14,7 @@ pub fn info() -> PropInfo {
         rule: "proptest: (issuer-signed JWT, disclosure list, KB-JWT or none) triples from honest issued SD-JWTs and presentations and from a sample of the C02 tamperings, C04 attacks and disclosure-list tamperings, each rendered as Compact and as JSON (kb_jwt absent / null / string; extra unknown members); only triples expressible in both forms. Oracle: verifier (with the triple's aud/nonce expectation) gives the same accept/reject decision and equal claims in both forms; holders built from both forms with the same selection return the same disclosure multiset or both fail. Non-trivial sub-case: tampered triple, or a triple accepted in at least one form; distinct by (case hash, triple description). evaluations = verifier and holder executions.",
         assumptions: &["holder panics on odd inputs are ignored here (C07's subject)", "void when issuance / presentation fails"],
         needs_mock: false,
+        rounds: 4,
     }
 }
 
